@@ -206,6 +206,58 @@ CHECKS["C20"] = cfg(
                  "liveness only as bounded progress: every gated future completes once all gates are open"],
 )
 
+CHECKS["C10"] = cfg(
+    "C10", exhaustive=True,
+    technique="runtime monitoring: own W3C DID ABNF recogniser and DID-URL splitter as oracle over exhaustive short strings, %XY grid, random/mutated DID URLs, (value, segment) pairs for every setter and join, Eq/Ord/Hash pair laws",
+    level_text="Every string over a 14-symbol adversarial alphabet up to length 5 (quick) / 7 (thorough) after 'did:m:' (and after 'did:'), a %XY grid, whitespace/control wraps and random/mutated DID URLs go through every construction path of CoreDID, DIDUrl and DIDJwk; accepted values must be reproduced verbatim, recompose from their components, satisfy the ABNF per component and carry no URL part in a plain DID; every setter/join must yield a value that re-parses to itself or leave the value unchanged; ==, cmp and hash must agree on all pairs of a value pool built through six routes.",
+    min={"quick": {"exhaustive_strings": 500000, "core_accepted_clean": 5000, "url_accepted_clean": 10000, "setter_ok": 700, "setter_refused": 1400, "join_ok": 140,
+                   "reparse_checks": 800, "pairs_checked": 50000, "pairs_equal_across_routes": 300, "jwk_decoded": 3, "random_strings": 16000, "nontrivial": 10000},
+         "thorough": {"exhaustive_strings": 100000000, "core_accepted_clean": 130000, "url_accepted_clean": 390000, "pairs_checked": 1700000, "nontrivial": 700000}},
+    thorough=[{"flavour": "checked", "shards": 16, "timeout": 3000},
+              {"flavour": "miri", "shards": 4, "timeout": 3000, "args": {"scale": 1}}],
+    assumptions=["rejecting a valid DID/DID URL is counted (url_rejected_ref_valid), not a violation: the statement constrains accepted strings",
+                 "HEXDIG is taken case-insensitively; a leading ':' or '::' inside a method-specific-id is valid ABNF"],
+)
+
+CHECKS["C17"] = cfg(
+    "C17", exhaustive=True,
+    technique="runtime monitoring: own IOTA DID grammar + (network, tag bytes) model as oracle over an exhaustive spelling grid and random families through all 8 construction paths; pairwise Eq/Ord/Hash against the model",
+    level_text="An exhaustive grid (scheme x method x network x prefix x tag length 62-66 x case/non-hex x suffix x whitespace) and random families of spellings are fed to every construction path (parse, FromStr, TryFrom<&str/String/CoreDID/BaseDIDUrl>, try_from_core, serde) and the builders; every accepted value must be the exact lowercase normal form with the default network elided and no URL parts, recompose from network_str/tag_str, round-trip through string/JSON/CoreDID, expose exactly the bytes/name given to new(), and be equal (and order/hash consistently) exactly when network and tag bytes are equal.",
+    min={"quick": {"accepted": 500000, "accepted_convert_paths": 200000, "value_checks": 400000, "must_accept_checks": 300000, "rejected": 300000, "pair_checks": 2000000,
+                   "pair_checks_equal_models": 800000, "new_checked": 10000, "netname_rejected": 3000, "grid_strings": 70000, "nontrivial": 2000},
+         "thorough": {"accepted": 20000000, "value_checks": 15000000, "pair_checks": 100000000, "grid_strings": 5000000, "nontrivial": 5000}},
+    assumptions=["no accept/reject claim for inputs outside the grammar (only what is accepted is judged)",
+                 "NetworkName values obtained through its unvalidated serde path and from_alias_id on malformed alias ids are counted, not judged"],
+)
+
+CHECKS["C05"] = cfg(
+    "C05", bin="c05", death_is_violation=True,
+    technique="runtime monitoring: process-wide panic monitor + shard-death observation (abort, stack overflow, OOM) over ~100 parsing/decoding/validating entry points fed exhaustive short strings, grammar-aware random structures and corpus mutation, followed by an accessor sweep on accepted values; overflow checks and debug assertions on",
+    level_text="Nine families of entry points (DID strings and setters, timestamps/urls/collections, JWKs and the concrete verifiers, JWS in three serializations, documents/services/methods and packed state metadata, credentials/presentations, the three validators over harness-signed hostile tokens against hostile documents, status lists/bitmaps, SD-JWT/disclosures/method digests) are fed directed hostile inputs, exhaustive short strings, grammar-aware random structures and byte/JSON mutations of the repository's own fixtures; every call runs under a panic hook and every accepted value goes through all accessors, formatters and serialisers. A panic, arithmetic overflow or dying shard is a violation.",
+    min={"quick": {"evaluations": 300000, "accepted": 50000, "accessor_calls": 500000, "cases_did": 150000, "cases_core": 40000, "cases_jwk": 15000, "cases_jws": 20000,
+                   "cases_docs": 25000, "cases_cred": 50000, "cases_valid": 12000, "cases_status": 2500, "cases_sdjwt": 7000, "credentials_validated": 150,
+                   "presentations_validated": 100, "sd_jwt_validated": 80, "kb_jwt_validated": 70, "jws_verified": 100, "nontrivial": 250},
+         "thorough": {"evaluations": 8000000, "accepted": 1200000, "accessor_calls": 10000000, "cases_valid": 300000, "nontrivial": 250}},
+    thorough=[{"flavour": "checked", "shards": 16, "timeout": 3000},
+              {"flavour": "asan", "shards": 8, "timeout": 3000, "args": {"scale": 100}}],
+    assumptions=["sd_jwt_vc, jpt-bbs-plus, client-only and Stronghold code is not compiled into the harness and not covered",
+                 "inputs are capped at 64 KiB and JSON nesting depth 100; allocation aborts from caller-chosen sizes are out of scope",
+                 "documented infallible constructors that expect() (IotaDID::new with an unvalidated NetworkName, from_alias_id) are not parsers and are excluded"],
+)
+
+CHECKS["C14"] = cfg(
+    "C14",
+    technique="runtime monitoring: symbolic-DID document model rendered for any concrete DID as oracle for pack / unpack / rebase; exhaustive header mutations, truncations, trailing bytes, size boundary",
+    level_text="IOTA documents generated from mixes of self/foreign methods in every scope, references (incl. dangling), services, controllers, alsoKnownAs and custom properties are packed, unpacked for the same DID (must equal the original) and for other DIDs/networks (must equal the harness model rendered with the target DID: exactly the self references rewritten); the payload and header are checked against the model, every single-byte header mutation and truncation must be rejected, trailing bytes ignored, and pack must fail exactly beyond 65535 bytes.",
+    min={"quick": {"pack_ok": 2000, "payload_matches_model": 2000, "unpack_ok": 2000, "roundtrip_same_ok": 2000, "rebase_ok": 5000, "self_refs_rewritten": 20000,
+                   "foreign_refs_preserved": 20000, "header_mutations_rejected": 100000, "exhaustive_header_documents": 50, "truncations_rejected": 20000,
+                   "trailing_ignored": 2000, "oversize_rejected": 16, "bytes_rejected_by_frame": 2000, "one_element_controller_array_inputs": 50, "nontrivial": 2000},
+         "thorough": {"pack_ok": 50000, "roundtrip_same_ok": 50000, "rebase_ok": 100000, "header_mutations_rejected": 1000000, "nontrivial": 10000}},
+    assumptions=["documents never contain the placeholder did:0:0 (excluded by the statement)",
+                 "targets for which rewriting would make two entries coincide are run under the panic monitor but not judged",
+                 "custom method data never carries extra properties (the JSON form is inherently ambiguous there)"],
+)
+
 # Default entries for properties whose monitors are being built (not claimed in MANIFEST.json until enabled).
 for _pid in ["C%02d" % i for i in range(1, 21)]:
     if _pid not in CHECKS:
